@@ -291,26 +291,65 @@ pub fn general(tr: &[RegAccess], out: &mut Vec<(String, String)>, ctx: &str) {
     }
 }
 
+thread_local! {
+    /// The device's queue selector as reconstructed from all register writes so far (a reset puts
+    /// it back to 0): what counts is what the device holds, not whether this very operation wrote
+    /// it, so an implementation remembering a still valid selection is fine.
+    static QSEL: std::cell::Cell<u64> = const { std::cell::Cell::new(0) };
+}
+
 fn select_first(tr: &[RegAccess], q: u16, out: &mut Vec<(String, String)>, ctx: &str) {
-    let mut sel: Option<u64> = None;
+    let mut sel: u64 = QSEL.with(|s| s.get());
+    let mut flagged = false;
     for a in tr {
         if a.region != Region::PciCommon {
             continue;
         }
         if a.write && a.off == 0x16 {
-            sel = Some(a.value);
-        } else if (0x18..0x38).contains(&a.off) && sel != Some(q as u64) {
-            out.push(("queue-not-selected".into(), format!("{}: per-queue field at {:#x} accessed while queue_select was {:?} within this operation", ctx, a.off, sel)));
-            return;
+            sel = a.value;
+        } else if a.write && a.off == 0x14 && a.value == 0 {
+            sel = 0;
+        } else if (0x18..0x38).contains(&a.off) && sel != q as u64 && !flagged {
+            flagged = true;
+            out.push(("queue-not-selected".into(), format!("{}: per-queue field at {:#x} accessed while the device's queue_select was {}", ctx, a.off, sel)));
         }
     }
+    QSEL.with(|s| s.set(sel));
+}
+
+/// Folds accesses of operations that are not per-queue into the tracked selector.
+fn track_select(tr: &[RegAccess]) {
+    let mut sel: u64 = QSEL.with(|s| s.get());
+    for a in tr {
+        if a.region == Region::PciCommon && a.write {
+            if a.off == 0x16 {
+                sel = a.value;
+            } else if a.off == 0x14 && a.value == 0 {
+                sel = 0;
+            }
+        }
+    }
+    QSEL.with(|s| s.set(sel));
 }
 
 /// Runs the full operation script on a constructed transport and checks every access.
 pub fn ops_script<T: Transport>(t: &mut T, b: &Built, wd: &Windows, out: &mut Vec<(String, String)>) -> u64 {
     let mut n = 0;
+    // Start from what the device model holds now.
+    let mut cur = 0u64;
+    crate::mmio::with_handler(|h| {
+        if let Some(w) = h.as_any().downcast_mut::<RegWorld>() {
+            if let Some(p) = w.pci.as_ref() {
+                cur = p.queue_sel as u64;
+            }
+        }
+    });
+    QSEL.with(|s| s.set(cur));
     let mut step = |name: &str, tr: &[RegAccess], out: &mut Vec<(String, String)>| {
         general(tr, out, name);
+        if !matches!(name, "max_queue_size" | "queue_used" | "queue_set" | "notify") {
+            track_select(tr);
+        }
     };
     let take = |b: &Built| -> Vec<RegAccess> { std::mem::take(&mut *b.trace.borrow_mut()) };
     let notify_off: Vec<u16> = (0..b.dev.borrow().queues.len() as u16).map(|q| (q * 3 + 1) % 7).collect();
@@ -399,6 +438,33 @@ pub fn ops_script<T: Transport>(t: &mut T, b: &Built, wd: &Windows, out: &mut Ve
         let tr = take(b);
         step("queue_unset", &tr, out);
         n += 7;
+    }
+    // A device reset between two operations on the same queue: the selector is 0 again, the
+    // second operation must select its queue.
+    for q in 1..nq {
+        let _ = t.max_queue_size(q);
+        let tr = take(b);
+        step("max_queue_size", &tr, out);
+        select_first(&tr, q, out, "max_queue_size");
+        t.set_status(DeviceStatus::empty());
+        let tr = take(b);
+        step("set_status", &tr, out);
+        let m = t.max_queue_size(q);
+        let tr = take(b);
+        step("max_queue_size", &tr, out);
+        select_first(&tr, q, out, "max_queue_size after reset");
+        let _ = m;
+        t.set_status(DeviceStatus::empty());
+        let tr = take(b);
+        step("set_status", &tr, out);
+        let used = t.queue_used(q);
+        let tr = take(b);
+        step("queue_used", &tr, out);
+        select_first(&tr, q, out, "queue_used after reset");
+        if used {
+            out.push(("queue-used".into(), format!("queue_used({}) = true after a reset", q)));
+        }
+        n += 5;
     }
     for isr in [0u32, 1, 2, 3] {
         b.dev.borrow_mut().isr = isr;
